@@ -29,7 +29,7 @@ RULE = (
     "other texts in between); non-trivial = text of >= 2 tokens; distinct = distinct texts"
 )
 ASSUMPTIONS = ["an invalid regular expression inside a pattern counts as a reported definition error, not as a well-formed text"]
-MUST_SEE = ["regex_inner_whitespace", 
+MUST_SEE = ["regex_engine_limit_literals", "regex_inner_whitespace", 
     "xpath_accepted", "xpath_rejected", "pattern_accepted", "pattern_rejected", "mutations_still_valid", "whitespace_variants", "recompiles_cold",
     "recompiles_hot", "unknown_class", "non_node_class", "duplicate_capture", "var_before_capture", "var_inside_own_capture", "random_strings", "late_defined_class", "compile_after_rejected", "escaped_quote_regexes",
 ]
@@ -349,6 +349,11 @@ def run_shard(ctx):
         for rx in ('a\\"', '\\"x\\"', 'say \\"hi\\"', '\\"', 'x\\\\', '[\\"a]+'):
             ctx.count("escaped_quote_regexes")
             check_pattern(f'({P}Leaf @s="{rx}")', "accept", "escaped-quote-regex")
+        # regex literals the regex engine refuses with something other than re.error (repetition counts beyond its limits)
+        for rx in ("x{4294967295}", "ab{2,99999999999}", "(a{65536}){65536}", "a{1,4294967296}"):
+            ctx.count("regex_engine_limit_literals")
+            check_pattern(f'({P}Leaf @s="{rx}")', None, "regex-engine-limit")
+            check_pattern(f'({P}Un @child=({P}Leaf @s="{rx}"))', None, "regex-engine-limit")
         # regex literals differing only in the white space inside the quotes are different patterns
         if rnd % 10 == 1:
             import re as _re
